@@ -29,6 +29,9 @@ type C11Case struct {
 	N    int      `json:"n"`
 	Init []uint64 `json:"init,omitempty"` // initial values (len N) or nil
 	Ops  []C11Op  `json:"ops"`
+	// LazyRaw: Raw() is looked at only at the end of the history, not after every operation (looking is
+	// itself a call on the storage and may refresh whatever it caches)
+	LazyRaw bool `json:"lazy_raw,omitempty"`
 }
 
 func eqU64(a, b []uint64) bool {
@@ -228,6 +231,9 @@ func c11Check(c C11Case) *pbt.Violation {
 				return pbt.V("c11.wronglen.fix", "wrong raw length is refused", "Fix(%d) accepted %d longs for n=%d, packing needs %d", b, bad, n, want)
 			}
 		}
+		if c.LazyRaw && si < len(c.Ops)-1 {
+			continue
+		}
 		if v := inv(step); v != nil {
 			return v
 		}
@@ -322,6 +328,7 @@ func genC11(t *rapid.T) C11Case {
 		}
 		c.Ops = append(c.Ops, op)
 	}
+	c.LazyRaw = rapid.Bool().Draw(t, "lazy_raw")
 	return c
 }
 
